@@ -60,4 +60,39 @@ def greedyTable (words : List (List Nat × Nat)) (n : Nat) (t : MTable) : Bool :
     t.length ≤ n && decide (es.Nodup) &&
     (greedyReplay (initCorpus words) es).any (fun c => es.length == n || maxPairFreq c == 0)
 
+/-! ### the trainer's internal state (observed through the hook `verif_train_steps`) -/
+
+/-- number of adjacent occurrences of `p` in one word (overlapping occurrences count, as in `byte_pair_stats`) -/
+def wordPairCount (w : List (List Nat)) (p : List Nat × List Nat) : Nat := ((wordPairs w).filter (· == p)).length
+
+/-- a snapshot of `BytePairStats`: pair, frequency, per-word occurrence counters -/
+abbrev StatsObs := List ((List Nat × List Nat) × Nat × List (Nat × Nat))
+
+/-- do the statistics describe the corpus exactly?  Every entry carries the recounted frequency and per-word
+counters (a missing counter is 0), no pair has two entries, and every pair that occurs has an entry. -/
+def statsExact (c : Corpus) (st : StatsObs) : Bool :=
+  st.all (fun e =>
+    e.2.1 == pairFreq c e.1 &&
+    e.2.2.all (fun io => io.1 < c.length) &&
+    (List.range c.length).all (fun i =>
+      ((e.2.2.find? (fun io => io.1 == i)).map (·.2)).getD 0 == wordPairCount (c.getD i ([], 0)).1 e.1)) &&
+  ((st.map (·.1)).eraseDups.length == st.length) &&
+  (allPairs c).all (fun p => st.any (fun e => e.1 == p))
+
+/-- replay of the observed steps: the chosen pair is a most frequent one, the vocabulary is the corpus re-segmented
+with it, and the statistics stay exact.  `some k` = the first step that fails (with a reason code). -/
+def stepsReplay : Corpus → List ((List Nat × List Nat) × StatsObs × List (List (List Nat))) → Nat → Option (Nat × Nat)
+  | _, [], _ => none
+  | c, (p, st, vocab) :: rest, k =>
+    if !(0 < pairFreq c p && pairFreq c p == maxPairFreq c) then some (k, 1)
+    else
+      let c' := applyMerge c p
+      if c'.map (·.1) != vocab then some (k, 2)
+      else if !statsExact c' st then some (k, 3)
+      else stepsReplay c' rest (k + 1)
+
+def corpusAfter : Corpus → List (List Nat × List Nat) → Corpus
+  | c, [] => c
+  | c, p :: ps => corpusAfter (applyMerge c p) ps
+
 end Tu
